@@ -68,6 +68,9 @@ def one(name, rebase, with_suite=False):
     d = os.path.join(SEEDED, name)
     meta = json.load(open(os.path.join(d, "meta.json")))
     prop = meta.get("breaks_property") or meta.get("property")
+    # a change made to break one property may be what another property's check is about (a save that leaves a half-written file is C18's
+    # business whatever collection is saved): meta["checked_by"] names the check that is run for it
+    prop = meta.get("checked_by") or prop
     tmp = tempfile.mkdtemp(prefix="sv-seed.")
     res = {"name": name, "property": prop}
     try:
